@@ -297,13 +297,18 @@ bool Instance::eval(const size_t argc, char* const* argv) {
         return false;
     }
     CScript::const_iterator it = script.begin();
+    // an executed OP_CODESEPARATOR must not leave the signed-code start pointing into the temporary script
+    const CScript::const_iterator codehash_start = env->pbegincodehash;
     while (it != script.end()) {
         try {
-            if (!StepScript(*env, it, &script)) {
+            bool stepped = StepScript(*env, it, &script);
+            env->pbegincodehash = codehash_start;
+            if (!stepped) {
                 fprintf(stderr, "Error: %s\n", ScriptErrorString(*env->serror).c_str());
                 return false;
             }
         } catch (const std::exception& ex) {
+            env->pbegincodehash = codehash_start;
             fprintf(stderr, "Error: exception thrown: %s\n", ex.what());
             return false;
         }
